@@ -44,7 +44,10 @@ def scenarios(draw):
             "line_trace": draw(st.booleans()),
             "switches": draw(st.lists(st.tuples(st.floats(0, 1, allow_nan=False, width=32), st.integers(0, 3), st.sampled_from([None, None, 1, 2, 3, 5])),
                                       max_size=8)),
-            "block_choices": draw(st.lists(st.integers(0, 3), max_size=12))}
+            "block_choices": draw(st.lists(st.integers(0, 3), max_size=12)),
+            # some connection attempts are refused (the k-th connect of the run): exactly the request that made that attempt fails with ConnectError,
+            # and its failure path runs through the pool's clean-up while the other threads are at work
+            "faults": draw(st.sampled_from([[], [], [], [0], [1], [2], [1, 3], [0, 2], [3]]))}
 
 
 def build(sc, switches):
@@ -60,7 +63,8 @@ def build(sc, switches):
             p2.append(step)
         programs.append(p2)
     pool_cfg, cfg, scheme = topo(sc["kind"], plans=plans, pool_extra=extra, hosts=HOSTS)
-    world = World(peer_factory=cfg.peer_factory)
+    world = World(peer_factory=cfg.peer_factory, faults=[{"kind": "connect", "kind_index": len(sc["warmup"]) + k, "fault": "ConnectError"}
+                                                        for k in sc.get("faults", [])])
     progs = []
     for prog in programs:
         steps = []
@@ -141,6 +145,7 @@ def _execute(sc, probe) -> Outcome:
     tr = ThreadRun(world, pool_cfg, progs, switches=switches.items(), block_choices=sc["block_choices"], line_trace=sc["line_trace"], warmup=warm)
     tr.run()
     vio = []
+    injected = 0
     # diagnosis for the signature only: did pool passes race each other (impossible while the pool lock serialises them)?
     sig = dict(conn=sc["kind"], duplicate_stream_id=bool(probe.dups), unserialised_pool_pass=bool(tr.unserialised_passes))
     what = (f"{sc['kind']} max_connections={sc['max_connections']} keepalive={sc['max_keepalive']} threads={len(progs)} warmup={sc['warmup']} "
@@ -163,6 +168,11 @@ def _execute(sc, probe) -> Outcome:
                 tok = step["tok"]
                 if out["exc"] is not None:
                     s0, s1 = out["seq_window"]
+                    hit = [f for f in run.world.fired_faults if s0 <= f["seq"] <= s1 + 1
+                           and any(op["seq"] == f["seq"] and op["actor"] == i for op in run.world.trace)]
+                    if hit and out["exc"]["name"] == hit[0]["fault"]:
+                        injected += 1
+                        continue  # this request made the connection attempt that was refused: its failure is the injected one
                     closers = sorted({op["actor"] for op in run.world.trace if op["kind"] == "close" and not op.get("already") and s0 <= op["seq"] <= s1 + 1
                                       and op["actor"] not in (i, None)}
                                      | {tid for seq_, tid, pid in run.close_intents if s0 <= seq_ <= s1 + 1 and tid not in (i, None)})
@@ -198,6 +208,8 @@ def _execute(sc, probe) -> Outcome:
         tags.append("preempted-inside-pool-code")
     if sc["warmup"]:
         tags.append("warm-idle-connections")
+    if injected:
+        tags.append("refused-connect-failed-its-own-request")
     key = [sc["kind"], sc["max_connections"], sc["max_keepalive"], sc["warmup"], [[(s["origin"], s["method"]) for s in p] for p in sc["programs"]],
            [(s[1], s[2], s[3]) for s in tr.sched.switch_log]]
     return Outcome(vio[:5], tags, inside > 0, key=key, info={"yield_points": n, "switches": len(tr.sched.switch_log), "final": tr.final_repr})
@@ -216,6 +228,10 @@ BASE_SCENARIOS = {
                   "programs": [[{"tok": "w0", "origin": 0, "method": "GET", "body_len": 10}], [{"tok": "w1", "origin": 0, "method": "POST", "body_len": 10}]]},
     "h2-fallback-h1": {"kind": "direct-h2-fallback-h1", "n_origins": 1, "max_connections": 1, "max_keepalive": None, "warmup": [],
                        "programs": [[{"tok": "w0", "origin": 0, "method": "GET", "body_len": 10}], [{"tok": "w1", "origin": 0, "method": "GET", "body_len": 10}]]},
+    # one thread's connection attempt is refused: its failure path (remove the request, re-assign, close) runs while the other thread uses the pool
+    "h1-refused-connect": {"kind": "direct-h1", "n_origins": 2, "max_connections": 2, "max_keepalive": None, "warmup": [0], "faults": [0],
+                           "programs": [[{"tok": "w0", "origin": 1, "method": "GET", "body_len": 10}], [{"tok": "w1", "origin": 0, "method": "GET", "body_len": 10},
+                                                                                                        {"tok": "w2", "origin": 1, "method": "GET", "body_len": 10}]]},
 }
 _N_CACHE = {}
 
